@@ -15,6 +15,7 @@ import (
 	"os"
 	"testing"
 	"testing/synctest"
+	"time"
 
 	"github.com/osrg/gobgp/v4/internal/verif/vlib"
 )
@@ -48,12 +49,26 @@ func TestVerifC06(t *testing.T) {
 		}
 	}
 	nL2 := vlib.Scale(len(l2fixed)+120, 20000)
-	total := nBase + nSingle + nPairs + nL2
+	// layer 3 (pipelined sessions): every (fault, peer type) once with treat-as-withdraw alternating, every base once, then PRNG
+	var l3fixed []l2spec
+	for fi, f := range faults {
+		for i, pt := range []c06PeerType{c06EBGP, c06IBGP, c06Confed} {
+			if f.peers&(1<<uint(pt)) != 0 {
+				l3fixed = append(l3fixed, l2spec{fi, -1, pt, (fi+i)%2 == 0})
+			}
+		}
+	}
+	for bi := range c06Bases {
+		l3fixed = append(l3fixed, l2spec{-1, bi, c06PeerType(bi % 3), bi%2 == 0})
+	}
+	nL3 := vlib.Scale(len(l3fixed), 6000)
+	total := nBase + nSingle + nPairs + nL2 + nL3
 	pool := &c06Pool{}
 	defer pool.close()
 	only := os.Getenv("VERIF_C06_ONLY") // debugging aid: "l1" or "l2" runs one layer's cases only
 	vlib.Cases(total, func(idx int) {
-		if only == "l1" && idx >= nBase+nSingle+nPairs || only == "l2" && idx < nBase+nSingle+nPairs {
+		l3 := idx >= nBase+nSingle+nPairs+nL2
+		if only == "l1" && idx >= nBase+nSingle+nPairs || only == "l2" && (idx < nBase+nSingle+nPairs || l3) || only == "l3" && !l3 {
 			return
 		}
 		switch {
@@ -78,6 +93,30 @@ func TestVerifC06(t *testing.T) {
 			}
 			rec.Mark(fmt.Sprintf("c06 l1 pair base %d faults %s+%s", bi, faults[i].id, faults[j].id), false)
 			c06L1Pair(rec, pool, idx, bi, faults[i], faults[j], r)
+		case l3:
+			k := idx - nBase - nSingle - nPairs - nL2
+			r := vlib.CaseRand("c06l3", idx)
+			var c *c06Case
+			switch {
+			case k < len(l3fixed) && l3fixed[k].f < 0:
+				sp := l3fixed[k]
+				c, _ = c06Make(3, c06Sess{pt: sp.pt, taw: sp.taw, addPath: c06Bases[sp.bi].addPath}, sp.bi, nil, nil)
+			case k < len(l3fixed):
+				sp := l3fixed[k]
+				c = c06PickCase(r, 3, sp.pt, sp.taw, []*c06Fault{faults[sp.f]})
+			default:
+				c = c06PickCase(r, 3, c06PeerType(r.IntN(3)), r.IntN(2) == 0, []*c06Fault{faults[r.IntN(F)]})
+			}
+			if c == nil {
+				rec.Count("l3_inapplicable", 1)
+				return
+			}
+			c.pipe = &c06Pipe{Prelude: r.IntN(2) == 0, Hold: []uint16{0, 9}[r.IntN(2)]}
+			if r.IntN(5) < 3 {
+				c.pipe.HoldUp = time.Duration(1+r.IntN(5)) * time.Millisecond
+			}
+			rec.Mark(fmt.Sprintf("c06 l3 %s base %s faults %s pos %v pipe %+v", c.sess, c06Bases[c.base].name, c.faultIDs(), c.pos, *c.pipe), true)
+			synctest.Test(t, func(t *testing.T) { c06L2Case(t, rec, idx, c, [2]c06Reaction{}, [2]bool{}) })
 		default:
 			k := idx - nBase - nSingle - nPairs
 			r := vlib.CaseRand("c06l2", idx)
@@ -159,14 +198,19 @@ func c06L2Case(t *testing.T, rec *vlib.Rec, idx int, c *c06Case, singles [2]c06R
 		return
 	}
 	rec.Eval()
-	rec.Count("l2_sessions", 1)
+	rec.Count(fmt.Sprintf("l%d_sessions", c.layer), 1)
+	if c.pipe != nil {
+		rec.Count(fmt.Sprintf("l3_prelude_%v", c.pipe.Prelude), 1)
+		rec.Count(fmt.Sprintf("l3_hold_%d", c.pipe.Hold), 1)
+		rec.Count(fmt.Sprintf("l3_established_held_up_%v", c.pipe.HoldUp > 0), 1)
+	}
 	if len(c.faults) == 0 {
-		rec.Count("l2_base_sessions", 1)
+		rec.Count(fmt.Sprintf("l%d_base_sessions", c.layer), 1)
 		c.judgeBase(rec, idx, o, "end to end")
 		return
 	}
 	c06Count(rec, c)
-	rec.Nontrivial(fmt.Sprintf("2|%s|%d|%v|%s", c.faultIDs(), c.base, c.pos, c.sess))
+	rec.Nontrivial(fmt.Sprintf("%d|%s|%d|%v|%s", c.layer, c.faultIDs(), c.base, c.pos, c.sess))
 	got := c.judge(rec, idx, o)
 	if len(c.faults) == 2 {
 		rec.Count("l2_pair_sessions", 1)
